@@ -7,7 +7,7 @@
     permutation". *)
 From Coq Require Import Permutation Sorting.Sorted.
 From Perf Require Import Base.Bytes Base.B64 Model.Name Model.Extract Model.Key Model.Projection
-  Model.Sort Proofs.Key Proofs.Projection Proofs.Sort Proofs.Reach.
+  Model.Sort Proofs.Key Proofs.Projection Proofs.Sort Proofs.Reach Proofs.NumSpec Proofs.FirstObs.
 
 Section C09.
 Variable parse_float : bytes -> option b64.
@@ -85,17 +85,30 @@ Qed.
 
 End C09.
 
-(** first_is_first_observation, proved part ("_partial"): (1) in every reachable
-    projection the flattened fields cover the whole field index space, sub-fields
-    of .config included; (2) interning a row that is not yet a Key shows its value
-    to the order map of EVERY field (this is the repaired loop of internRow: it
-    used to range over the top-level fields only), and a row that already is a Key
-    changes nothing; (3) observing keeps every rank already handed out and gives an
-    unseen value the next, largest rank. Not proved: the induction over streams
-    that turns (1)-(3) into "for values a, b observed in Keys of a first-ordered
-    field, cmp_first a b < 0 iff the first Key carrying a was interned before the
-    first Key carrying b (counting Keys interned since the field exists)". *)
-Theorem C09_first_is_first_observation_partial :
+(** first_is_first_observation: after ANY stream of calls, for every field ordered
+    "first" of every projection — a top-level field, .unit, or a sub-field of
+    .config — and any two values a, b carried by Keys: a sorts before b in that
+    field iff the first Key carrying a was interned before the first Key carrying
+    b ([first_key]: position, in interning order, among ALL Keys of the
+    projection). For a sub-field of .config, which comes into existence when its
+    file key is first seen, the missing value "" of Keys is not an observation, so
+    there the statement is about non-empty values. (An unobserved "" reads rank 0
+    from Go's map and ties with the first observed value; [less] then falls back
+    to string order — C09_field_rel_total covers that case.) *)
+Theorem C09_first_is_first_observation : forall ops w xs p idx f,
+  run_ops new_world ops = (w, xs) -> In p (w_projs w) ->
+  nth_error (p_fields p) idx = Some f -> fi_ord f = OFirst ->
+  forall a b ia ib,
+    first_key p idx a = Some ia -> first_key p idx b = Some ib ->
+    (fi_src f = SCfg -> a <> [] /\ b <> []) ->
+    (Z.lt (cmp_first (fi_obs f) a b) 0 <-> ia < ib).
+Proof. exact first_is_first_observation. Qed.
+
+(** the steps behind it: flattened fields cover the index space; interning a new
+    row shows its value to the order map of EVERY field (the repaired loop of
+    internRow), an old row changes nothing; ranks never change and a new value
+    gets the next rank *)
+Theorem C09_observation_steps :
   (forall ops w xs p, run_ops new_world ops = (w, xs) -> In p (w_projs w) -> KInv p /\ covers p) /\
   (forall p, covers p ->
      let rw := trim (p_row p) in
@@ -115,12 +128,65 @@ Proof.
   split; [exact reachable_inv|]. split; [exact intern_observes|exact observe_ranks].
 Qed.
 
+(** num_spec. The specification ([num_denote], [num_order], [num_before] in
+    Model/Sort.v) says: a string denotes the float ParseFloat reads from it, or
+    else v x RN(1000^e) / v x RN(1024^e) for the leftmost maximal run of [0-9.]
+    (ParseFloat's value v of that run) followed by one of k K M G T P E Z Y
+    (e = 1 1 2 3 4 5 6 7 8), with 'i' selecting 1024; the powers are the EXACT
+    integers rounded once to binary64 (exact for all but 1000^8) and the product is
+    one IEEE multiplication; numbers sort before non-numbers, NaN after all other
+    numbers, otherwise by < on the values, ties by string order.
+    The only fact used about math.Pow is that it returns those rounded powers for
+    the exponents 0..8 ([pow_rounded]; checked on every case's recorded table). *)
+Theorem C09_leftmost_run_spec : forall x,
+  let s := drop_while (fun c => negb (is_numch c)) x in
+  let pre := take_while (fun c => negb (is_numch c)) x in
+  let run := take_while is_numch s in
+  let rest := drop_while is_numch s in
+  x = pre ++ run ++ rest /\
+  forallb (fun c => negb (is_numch c)) pre = true /\
+  forallb is_numch run = true /\
+  (run = [] -> rest = []) /\
+  match rest with c :: _ => is_numch c = false | [] => True end.
+Proof. exact leftmost_run_spec. Qed.
+
+Theorem C09_num_spec : forall (parse_float : bytes -> option b64) (pow : bool -> nat -> b64),
+  (forall (iec : bool) (e : nat), e <= 8 ->
+     pow iec e = b64_of_Z ((if iec then 1024 else 1000) ^ Z.of_nat e)%Z) ->
+  forall x, parse_num parse_float pow x = num_denote parse_float x.
+Proof. exact num_spec. Qed.
+
+(** ... and what [less] decides on a num field is exactly the specified order *)
+Theorem C09_num_order_spec : forall (parse_float : bytes -> option b64) (pow : bool -> nat -> b64),
+  (forall (iec : bool) (e : nat), e <= 8 ->
+     pow iec e = b64_of_Z ((if iec then 1024 else 1000) ^ Z.of_nat e)%Z) ->
+  forall a b, val_less (cmp_num parse_float pow) a b = num_before parse_float a b.
+Proof. exact val_less_num. Qed.
+
+(** fixed_spec: a listed word ranks at the LAST position where it is listed, an
+    unlisted word at 0; in a list without repetitions listed words compare by
+    their positions *)
+Theorem C09_fixed_spec : forall l v,
+  (In v l -> last_listed_at l v (fixed_rank l v)) /\ (~ In v l -> fixed_rank l v = 0).
+Proof. exact fixed_spec. Qed.
+
+Theorem C09_fixed_spec_nodup : forall l i j a b,
+  NoDup l -> nth_error l i = Some a -> nth_error l j = Some b ->
+  cmp_fixed l a b = (Z.of_nat i - Z.of_nat j)%Z.
+Proof. exact fixed_spec_nodup. Qed.
+
 Print Assumptions C09_field_rel_total.
 Print Assumptions C09_val_less_is_prec.
 Print Assumptions C09_less_strict_total.
 Print Assumptions C09_sorted_perm_unique.
 Print Assumptions C09_sortkeys_arrangement_independent.
-Print Assumptions C09_first_is_first_observation_partial.
+Print Assumptions C09_first_is_first_observation.
+Print Assumptions C09_observation_steps.
+Print Assumptions C09_leftmost_run_spec.
+Print Assumptions C09_num_spec.
+Print Assumptions C09_num_order_spec.
+Print Assumptions C09_fixed_spec.
+Print Assumptions C09_fixed_spec_nodup.
 
 (** non-vacuity. The hypotheses hold for a concrete oracle: ParseFloat knowing
     "1", "1.0", "2", "NaN" (and rejecting everything else), exact powers; every
@@ -134,6 +200,10 @@ Definition ex_pf (x : bytes) : option b64 :=
   else if beq x (bs "NaN") then Some S754_nan else None.
 Definition ex_pow (iec : bool) (e : nat) : b64 := b64_of_Z ((if iec then 1024 else 1000) ^ Z.of_nat e).
 
+Example C09_pow_rounded_example : forall (iec : bool) (e : nat), e <= 8 ->
+  ex_pow iec e = b64_of_Z ((if iec then 1024 else 1000) ^ Z.of_nat e)%Z.
+Proof. reflexivity. Qed.
+
 Example C09_example :
   val_less (cmp_num ex_pf ex_pow) (bs "1") (bs "1.0") = true /\
   val_less (cmp_num ex_pf ex_pow) (bs "1.0") (bs "1") = false /\
@@ -145,6 +215,8 @@ Example C09_example :
   parse_num ex_pf ex_pow (bs "x1Ki") = Some (b64_of_Z 1024) /\
   num_match (bs "abc12.5MiB") = Some (bs "12.5", bs "Mi") /\
   cmp_fixed [bs "a"; bs "b"; bs "a"] (bs "b") (bs "a") = (-1)%Z /\
+  num_denote ex_pf (bs "x1Yi") = Some (b64_of_Z (2 ^ 80)) /\
+  num_before ex_pf (bs "1Zi") (bs "2") = false /\
   (let vs := [b64_of_Z 1; b64_of_Z 2; b64_of_Z 1000; b64_of_Z 1024; S754_nan; S754_zero true; S754_zero false] in
    forallb (fun x => negb (b64_lt x x)) vs
    && forallb (fun x => forallb (fun y => forallb (fun z =>
